@@ -333,8 +333,13 @@ class GeoInterp:
         if isinstance(e, ast.UnaryOp) and isinstance(e.op, ast.Not):
             return ('B', not self._truth(ev(e.operand)))
         if isinstance(e, ast.BoolOp):
-            vals = [self._truth(ev(v)) for v in e.values]
-            return ('B', all(vals) if isinstance(e.op, ast.And) else any(vals))
+            # short-circuit, as Python does: `lo is None or value < lo`
+            is_and = isinstance(e.op, ast.And)
+            for v in e.values:
+                t_ = self._truth(ev(v))
+                if t_ != is_and:
+                    return ('B', t_)
+            return ('B', is_and)
         if isinstance(e, ast.IfExp):
             return ev(e.body) if self._truth(ev(e.test)) else ev(e.orelse)
         if isinstance(e, ast.Compare) and len(e.ops) == 1:
@@ -839,6 +844,17 @@ class GeoInterp:
                     nd.func.value.id in w.defs):
                 # statement by statement instead (loops over known finite collections unrolled)
                 return self._exec_function(fn, bound, depth)
+        # a loop that re-binds locals read afterwards (a running minimum) is not what the
+        # guards of the returns show either
+        for lp_ in ast.walk(fn.node):
+            if isinstance(lp_, (ast.For, ast.While)):
+                assigned = {t_.id for s_ in ast.walk(lp_) if isinstance(s_, ast.Assign)
+                            for t_ in s_.targets if isinstance(t_, ast.Name)}
+                after = {n_.id for s_ in fn.node.body
+                         if getattr(s_, 'lineno', 0) > getattr(lp_, 'end_lineno', 0)
+                         for n_ in ast.walk(s_) if isinstance(n_, ast.Name)}
+                if assigned & after:
+                    return self._exec_function(fn, bound, depth)
         if not hasattr(self, '_frames'):
             self._frames = []
         self._frames.append((w, bound, fn.module))
